@@ -123,7 +123,8 @@ def run(tier, seed, budget=None):
         jobs = max(1, core.ncpu() - 2)
         runs = 4000000
         outcome, rc, text = proc.run([fz, corpus, "-seed=%d" % seed, "-runs=%d" % runs, "-max_len=32", "-len_control=0", "-use_value_profile=1",
-                                      "-artifact_prefix=" + tmp + "/", "-print_final_stats=1"], env=e, cwd=tmp, budget_s=1500)
+                                      "-artifact_prefix=" + tmp + "/", "-print_final_stats=1",
+                                      "-max_total_time=%d" % (480 if not budget else max(10, int(budget * 0.5)))], env=e, cwd=tmp, budget_s=1500)
         cov["engines"].append({"engine": "libFuzzer", "outcome": outcome, "runs": runs})
         if os.path.exists(out):
             fr = json.load(open(out))
